@@ -17,7 +17,7 @@ use tantivy::query::{
     TermQuery, TermSetQuery,
 };
 use tantivy::schema::{
-    Field, IndexRecordOption, Schema, TextFieldIndexing, TextOptions, FAST, INDEXED,
+    Field, IndexRecordOption, OwnedValue, Schema, TextFieldIndexing, TextOptions, FAST, INDEXED,
 };
 use tantivy::{DateTime, DocAddress, Executor, Index, IndexWriter, Searcher, TantivyDocument, Term};
 use tantivy_fst::Automaton;
@@ -26,7 +26,7 @@ use tvh::out::CaseOut;
 use tvh::rng::Rng;
 use tvh::{guarded, Args};
 
-const HEADER: &str = "From TV Require Import Base.Prelude Query.QuerySem Query.Compose Query.Cases Query.MonoMap Generated.Constants.";
+const HEADER: &str = "From TV Require Import Base.Prelude Query.QuerySem Query.Compose Query.Exists Query.Cases Query.MonoMap Generated.Constants.";
 
 // ------------------------------------------------------------------------------------------ model
 #[derive(Clone, Debug, PartialEq)]
@@ -77,6 +77,12 @@ impl Bd {
 
 const TEXT_FIELDS: [u64; 2] = [0, 1];
 const TYPED_FIELDS: [u64; 5] = [10, 11, 12, 13, 14];
+/// sub-paths of the JSON fast field `js` (model field id, path, kind): scalars, arrays, and one path holding
+/// values of several types.  Strings are modelled as tokens of the path, the other leaves as typed values.
+#[derive(Clone, Copy, PartialEq)]
+enum JKind { I, S, B, SArr, FArr, IArr, Mixed }
+const JSON_PATHS: [(u64, &str, JKind); 7] = [(21, "a", JKind::I), (22, "b", JKind::S), (23, "c", JKind::B), (24, "tags", JKind::SArr),
+                                             (25, "nums", JKind::FArr), (26, "ids", JKind::IArr), (27, "m", JKind::Mixed)];
 
 #[derive(Clone, Debug, Default)]
 struct DocM {
@@ -103,6 +109,7 @@ enum Q {
     Range { f: u64, lo: Bd, hi: Bd, inverted: bool },
     TermSet { f: u64, ts: Vec<usize> },
     Exists { f: u64 },
+    ExistsPaths { name: String, subpaths: bool, fs: Vec<u64> },
     Fuzzy { f: u64, word: String, dist: u8, transp: bool, prefix: bool, auto: usize },
     Regex { f: u64, pat: String, auto: usize },
     All,
@@ -125,6 +132,7 @@ impl Q {
             Q::Range { f, lo, hi, .. } => format!("QLeaf (LRange {} {} {})", f, lo.coq(), hi.coq()),
             Q::TermSet { f, ts } => format!("QLeaf (LTermSet {} {})", f, cf::ns(ts)),
             Q::Exists { f } => format!("QLeaf (LExists {})", f),
+            Q::ExistsPaths { fs, .. } => format!("QLeaf (LExistsPaths {})", cf::ns(fs)),
             Q::Fuzzy { f, auto, .. } | Q::Regex { f, auto, .. } => format!("QLeaf (LAuto {} {})", f, auto),
             Q::All => "QAll".into(),
             Q::Empty => "QEmpty".into(),
@@ -162,6 +170,33 @@ impl Q {
             _ => false,
         }
     }
+    /// known class F33: a union (boolean with >= 2 should clauses) that has a child able to be left dangling by
+    /// seek_danger (a conjunction, a phrase, a phrase-prefix) and that is itself a clause of another boolean
+    fn has_f33(&self) -> bool {
+        fn dangling_capable(q: &Q) -> bool {
+            match q {
+                Q::Phrase { .. } | Q::PhrasePrefix { .. } => true,
+                Q::Boost(q, _) | Q::Const(q, _) => dangling_capable(q),
+                Q::Bool(_, cs) => cs.iter().filter(|c| c.0 != Occur::MustNot).count() >= 2 && cs.iter().any(|c| c.0 == Occur::Must) || cs.iter().any(|c| dangling_capable(&c.1)),
+                Q::DisMax(qs) => qs.iter().any(dangling_capable),
+                _ => false,
+            }
+        }
+        fn is_union_with_dangler(q: &Q) -> bool {
+            match q {
+                Q::Boost(q, _) | Q::Const(q, _) => is_union_with_dangler(q),
+                Q::Bool(_, cs) => cs.iter().filter(|c| c.0 == Occur::Should).count() >= 2 && cs.iter().any(|c| c.0 == Occur::Should && dangling_capable(&c.1)),
+                Q::DisMax(qs) => qs.len() >= 2 && qs.iter().any(dangling_capable),
+                _ => false,
+            }
+        }
+        match self {
+            Q::Boost(q, _) | Q::Const(q, _) => q.has_f33(),
+            Q::DisMax(qs) => qs.iter().any(|q| q.has_f33()),
+            Q::Bool(_, cs) => cs.len() >= 2 && cs.iter().any(|c| is_union_with_dangler(&c.1)) || cs.iter().any(|c| c.1.has_f33()),
+            _ => false,
+        }
+    }
     fn has_f32(&self) -> bool {
         match self {
             Q::Phrase { ts, slop, .. } => ts.len() >= 3 && *slop > 0,
@@ -174,7 +209,7 @@ impl Q {
     fn kind_name(&self) -> &'static str {
         match self {
             Q::Term { .. } => "term", Q::Phrase { .. } => "phrase", Q::PhrasePrefix { .. } => "phrase_prefix", Q::Range { .. } => "range",
-            Q::TermSet { .. } => "term_set", Q::Exists { .. } => "exists", Q::Fuzzy { .. } => "fuzzy", Q::Regex { .. } => "regex",
+            Q::TermSet { .. } => "term_set", Q::Exists { .. } => "exists", Q::ExistsPaths { .. } => "exists_json", Q::Fuzzy { .. } => "fuzzy", Q::Regex { .. } => "regex",
             Q::All => "all", Q::Empty => "empty", Q::Boost(..) => "boost", Q::Const(..) => "const", Q::DisMax(..) => "dismax", Q::Bool(..) => "bool",
         }
     }
@@ -221,6 +256,7 @@ fn matches(d: &DocM, q: &Q, acc: &[Vec<usize>]) -> bool {
         }),
         Q::TermSet { f, ts } => ts.iter().any(|t| d.toks(*f).contains(t)),
         Q::Exists { f } => !d.values(*f).is_empty(),
+        Q::ExistsPaths { fs, .. } => fs.iter().any(|f| !d.values(*f).is_empty() || !d.toks(*f).is_empty()),
         Q::Fuzzy { f, auto, .. } | Q::Regex { f, auto, .. } => d.toks(*f).iter().any(|t| acc[*auto].contains(t)),
         Q::All => true,
         Q::Empty => false,
@@ -238,7 +274,7 @@ fn matches(d: &DocM, q: &Q, acc: &[Vec<usize>]) -> bool {
 }
 
 // ------------------------------------------------------------------------------------------ index
-struct Fields { id: Field, text: [Field; 2], i: Field, u: Field, f: Field, b: Field, d: Field }
+struct Fields { id: Field, text: [Field; 2], i: Field, u: Field, f: Field, b: Field, d: Field, js: Field }
 
 fn schema() -> (Schema, Fields) {
     let mut sb = Schema::builder();
@@ -251,7 +287,8 @@ fn schema() -> (Schema, Fields) {
     let f = sb.add_f64_field("ff", FAST | INDEXED);
     let b = sb.add_bool_field("fb", FAST | INDEXED);
     let d = sb.add_date_field("fd", FAST | INDEXED);
-    (sb.build(), Fields { id, text: [t0, t1], i, u, f, b, d })
+    let js = sb.add_json_field("js", FAST);
+    (sb.build(), Fields { id, text: [t0, t1], i, u, f, b, d, js })
 }
 
 fn typed_field(fs: &Fields, f: u64) -> (Field, &'static str) {
@@ -289,6 +326,7 @@ fn to_query(q: &Q, fs: &Fields, vocab: &[String]) -> Box<dyn Query> {
         }
         Q::TermSet { f, ts } => Box::new(TermSetQuery::new(ts.iter().map(|t| tterm(*f, *t)))),
         Q::Exists { f } => Box::new(ExistsQuery::new(typed_field(fs, *f).1.to_string(), false)),
+        Q::ExistsPaths { name, subpaths, .. } => Box::new(ExistsQuery::new(name.clone(), *subpaths)),
         Q::Fuzzy { f, word, dist, transp, prefix, .. } => {
             let term = Term::from_field_text(fs.text[*f as usize], word);
             if *prefix { Box::new(FuzzyTermQuery::new_prefix(term, *dist, *transp)) } else { Box::new(FuzzyTermQuery::new(term, *dist, *transp)) }
@@ -323,6 +361,54 @@ fn gen_vals(rng: &mut Rng, f: u64) -> Vec<Val> {
 
 fn gen_val(rng: &mut Rng, f: u64) -> Val {
     loop { if let Some(v) = gen_vals(rng, f).pop() { return v; } }
+}
+
+/// fills the JSON sub-paths `active` of every document: each path is present with probability ~1/3
+/// (`dense` paths always), arrays hold 1..3 leaves
+fn add_json(rng: &mut Rng, c: &mut Corpus, active: &[u64], dense: &[u64], vocab_n: usize) {
+    for d in c.docs.iter_mut() {
+        for (jf, _, kind) in JSON_PATHS {
+            if !active.contains(&jf) { continue; }
+            if !dense.contains(&jf) && !rng.chance(1, 3) { continue; }
+            let n = 1 + (rng.below(4) as usize) % 3;
+            let ival = |rng: &mut Rng| Val::I(*rng.pick(&[-5i64, 0, 1, 7, 1 << 40]));
+            let fval = |rng: &mut Rng| Val::F(*rng.pick(&[1.5f64, -2.25, 1e10]));
+            let tok = |rng: &mut Rng| rng.below(vocab_n as u64) as usize;
+            match kind {
+                JKind::I => { d.vals.insert(jf, vec![ival(rng)]); }
+                JKind::S => { d.text.insert(jf, vec![tok(rng)]); }
+                JKind::B => { d.vals.insert(jf, vec![Val::B(rng.chance(1, 2))]); }
+                JKind::SArr => { d.text.insert(jf, (0..n).map(|_| tok(rng)).collect()); }
+                JKind::FArr => { d.vals.insert(jf, (0..n).map(|_| fval(rng)).collect()); }
+                JKind::IArr => { d.vals.insert(jf, (0..n).map(|_| ival(rng)).collect()); }
+                JKind::Mixed => {
+                    let mut vs = vec![]; let mut ts = vec![];
+                    for _ in 0..n { match rng.below(4) { 0 => vs.push(ival(rng)), 1 => vs.push(fval(rng)), 2 => vs.push(Val::B(rng.chance(1, 2))), _ => ts.push(tok(rng)) } }
+                    if !vs.is_empty() { d.vals.insert(jf, vs); }
+                    if !ts.is_empty() { d.text.insert(jf, ts); }
+                }
+            }
+        }
+    }
+}
+
+/// a segment-sized corpus whose interesting terms are sparse: every document holds the filler token 0,
+/// token 9 sits in every ~50th document, and the rare tokens 5..8, 10, 11 only occur in a few clusters of
+/// 10 consecutive documents that lie more than 4096 doc ids apart (union look-ahead window)
+fn gen_sparse_corpus(rng: &mut Rng, name: &str, n: usize, chunks: Vec<usize>, delete_pct: u64) -> Corpus {
+    let mut docs: Vec<DocM> = (0..n).map(|u| { let mut d = DocM { uid: u as u64, alive: true, ..Default::default() };
+        let mut t = vec![0usize]; if u % 50 == 7 { t.push(9); } d.text.insert(0, t); d }).collect();
+    let mut c = 50 + rng.below(300) as usize;
+    while c + 10 < n {
+        for delta in 0..10 {
+            let toks = docs[c + delta].text.get_mut(&0).unwrap();
+            if rng.chance(1, 4) { toks.clear(); }          // not every cluster document carries the filler
+            for t in [5usize, 6, 7, 8, 10, 11] { if rng.chance(2, 5) { let at = rng.below(toks.len() as u64 + 1) as usize; toks.insert(at, t); } }
+        }
+        c += 4200 + rng.below(1500) as usize;
+    }
+    for d in docs.iter_mut() { if rng.below(100) < delete_pct { d.alive = false; } }
+    Corpus { name: name.into(), docs, chunks, merge_first_two: false }
 }
 
 /// n docs; `forced`: (token, field, how many docs of [lo,hi) must contain it)
@@ -387,6 +473,18 @@ fn build_index(c: &Corpus, vocab: &[String]) -> Built {
                             Val::D(s) => td.add_date(fields.d, DateTime::from_timestamp_secs(*s)),
                         }
                     }
+                }
+                let mut obj = serde_json::Map::new();
+                for (jf, path, _) in JSON_PATHS {
+                    let mut leaves: Vec<serde_json::Value> = d.values(jf).iter().map(|v| match v {
+                        Val::I(z) => serde_json::json!(*z), Val::U(n) => serde_json::json!(*n), Val::F(x) => serde_json::json!(*x),
+                        Val::B(b) => serde_json::json!(*b), Val::D(s) => serde_json::json!(*s) }).collect();
+                    leaves.extend(d.toks(jf).iter().map(|t| serde_json::json!(vocab[*t].clone())));
+                    match leaves.len() { 0 => {} 1 if d.uid % 2 == 0 => { obj.insert(path.to_string(), leaves.pop().unwrap()); } _ => { obj.insert(path.to_string(), serde_json::Value::Array(leaves)); } }
+                }
+                if !obj.is_empty() || d.uid % 3 == 0 {
+                    let o: BTreeMap<String, OwnedValue> = serde_json::from_value(serde_json::Value::Object(obj)).expect("json object");
+                    td.add_object(fields.js, o);
                 }
                 w.add_document(td).unwrap();
             }
@@ -464,7 +562,7 @@ impl<'a> QGen<'a> {
                         // RangeQuery over a FAST bool field is rejected with InvalidArgument by FastFieldRangeWeight: use the inverted index there
                         Q::Range { f: tf, lo, hi, inverted: tf == 13 || self.rng.chance(1, 3) } }
             11 | 12 => { let n = self.rng.range(1, 4) as usize; Q::TermSet { f, ts: (0..n).map(|_| self.tok()).collect() } }
-            13 => Q::Exists { f: *self.rng.pick(&TYPED_FIELDS) },
+            13 => if self.rng.chance(1, 2) { Q::Exists { f: *self.rng.pick(&TYPED_FIELDS) } } else { self.exists_json() },
             14 => Q::All,
             15 => Q::Empty,
             16 => { let mut word = self.vocab[self.tok()].clone();
@@ -527,6 +625,23 @@ impl<'a> QGen<'a> {
             6 => { let n2 = *self.rng.pick(&[1usize, 2]); let pp2 = self.pp_leaf(n2); Q::Bool(0, vec![(Occur::Must, pp), (Occur::Must, pp2)]) }
             7 => Q::Bool(0, vec![(Occur::Must, Q::Bool(0, vec![(Occur::Must, pp), (Occur::Must, other(self))])), (Occur::MustNot, other(self))]),
             _ => Q::Bool(1, vec![(Occur::Must, pp), (Occur::Must, term(self)), (Occur::Should, other(self)), (Occur::Should, other(self))]),
+        }
+    }
+    /// exists over the JSON fast field: the whole field with its sub-paths (one column per path and type),
+    /// or one path (a single column, or several for the mixed-type path)
+    fn exists_json(&mut self) -> Q {
+        if self.rng.chance(1, 2) { Q::ExistsPaths { name: "js".into(), subpaths: true, fs: JSON_PATHS.iter().map(|p| p.0).collect() } }
+        else { let (jf, path, _) = *self.rng.pick(&JSON_PATHS); Q::ExistsPaths { name: format!("js.{path}"), subpaths: self.rng.chance(1, 2), fs: vec![jf] } }
+    }
+    fn exists_tree(&mut self) -> Q {
+        let e = self.exists_json();
+        let term = |g: &mut Self| Q::Term { f: 0, t: g.tok(), freqs: g.rng.chance(1, 2) };
+        match self.rng.below(5) {
+            0 => e,
+            1 => Q::Bool(0, vec![(Occur::Must, e), (Occur::Must, term(self))]),
+            2 => Q::Bool(0, vec![(Occur::Must, term(self)), (Occur::MustNot, e)]),
+            3 => { let e2 = self.exists_json(); Q::Bool(0, vec![(Occur::Should, e), (Occur::Should, e2), (Occur::MustNot, term(self))]) }
+            _ => { let e2 = self.exists_json(); Q::Bool(2, vec![(Occur::Should, e), (Occur::Should, e2), (Occur::Should, term(self))]) }
         }
     }
     fn tree(&mut self, depth: usize) -> Q {
@@ -595,6 +710,43 @@ fn observe(b: &Built, q: &dyn Query, total: usize) -> Obs {
     Obs { count, qcount, ids_ns, ids_ns_scw, ids_top, ids_multi, ids_filter }
 }
 
+/// boolean trees over sparse terms (see gen_sparse_corpus): unions and conjunctions nested in both clause
+/// orders, as Must / MustNot / Should clauses, so that unions are driven by seek / seek_danger over gaps
+/// larger than their look-ahead window
+fn sparse_term(rng: &mut Rng) -> Q {
+    let t = match rng.below(20) { 0 | 1 => 0usize, 2 | 3 => 9, _ => *rng.pick(&[5usize, 6, 7, 8, 10, 11]) };
+    Q::Term { f: 0, t, freqs: rng.chance(2, 3) }
+}
+fn sparse_tree(rng: &mut Rng, depth: usize) -> Q {
+    if depth == 0 || rng.chance(1, 4) { return sparse_term(rng); }
+    let n = rng.range(2, 4) as usize;
+    let style = rng.below(5);
+    let cs: Vec<(Occur, Q)> = (0..n).map(|k| {
+        let o = match style { 0 => Occur::Should, 1 => Occur::Must, 2 => if k == 0 { Occur::Must } else { *rng.pick(&[Occur::Must, Occur::MustNot]) },
+                              3 => *rng.pick(&[Occur::Should, Occur::Should, Occur::MustNot]), _ => *rng.pick(&[Occur::Must, Occur::Should, Occur::Should, Occur::MustNot]) };
+        (o, sparse_tree(rng, depth - 1))
+    }).collect();
+    let n_should = cs.iter().filter(|c| c.0 == Occur::Should).count();
+    let msm = match rng.below(6) { 0 => 1, 1 => 2.min(n_should), _ => { let mut m = 0; for (o, _) in &cs { if *o == Occur::Should { m = 1 } else { m = 0; break } } m } };
+    Q::Bool(msm, cs)
+}
+fn sparse_directed(rng: &mut Rng) -> Q {
+    let mut ts = [5usize, 6, 7, 8, 10, 11]; rng.shuffle(&mut ts);
+    let t = |t: usize| Q::Term { f: 0, t, freqs: true };
+    let conj = Q::Bool(0, vec![(Occur::Must, t(ts[2])), (Occur::Must, t(ts[3]))]);
+    let conj_or_phrase = if rng.chance(1, 4) { Q::Phrase { f: 0, ts: vec![(0, ts[2]), (1, ts[3])], slop: *rng.pick(&[0u32, 1, 2]) } } else { conj };
+    let mut union = vec![(Occur::Should, t(ts[1])), (Occur::Should, conj_or_phrase)];
+    if rng.chance(1, 2) { union.swap(0, 1); }
+    if rng.chance(1, 4) { union.push((Occur::Should, t(ts[4]))); }
+    let union = Q::Bool(0, union);
+    match rng.below(5) {
+        0 | 1 => Q::Bool(0, vec![(Occur::Must, t(ts[0])), (Occur::Must, union)]),
+        2 => Q::Bool(0, vec![(Occur::Must, union), (Occur::Must, t(ts[0]))]),
+        3 => Q::Bool(0, vec![(Occur::Must, t(ts[0])), (Occur::MustNot, union)]),
+        _ => Q::Bool(0, vec![(Occur::Must, t(ts[0])), (Occur::Must, union), (Occur::MustNot, t(ts[5]))]),
+    }
+}
+
 fn make_vocab(rng: &mut Rng, n: usize) -> Vec<String> {
     let mut set = BTreeSet::new();
     for w in ["a", "b", "c", "ab", "abc", "ba"] { set.insert(w.to_string()); }
@@ -649,6 +801,24 @@ fn main() {
         let mg = rng.chance(1, 3);
         corpora.push(gen_corpus(&mut rng, &format!("random-{k}"), n, vocab_n, ch, &[(2, 0..n, 1), (3, 0..n, n / 3)], del, mg));
     }
+    // JSON sub-paths per corpus: fewer than / at least C03_EXISTS_BITSET_MIN_COLUMNS columns, with and without arrays
+    {
+        let all: Vec<u64> = JSON_PATHS.iter().map(|p| p.0).collect();
+        for c in corpora.iter_mut() {
+            let (active, dense): (Vec<u64>, Vec<u64>) = match c.name.as_str() {
+                "empty" => (vec![], vec![]),
+                "single-doc" => (all.clone(), vec![21]),
+                "tiny-segs" => (vec![21, 22, 23, 24], vec![]),
+                "small-deletes" => (vec![21, 23, 25], vec![]),
+                "small-merge" => (all.clone(), vec![]),
+                "block-128-129" => (vec![21, 22, 23, 24, 25], vec![]),
+                "block-128-129-deletes" => (vec![24, 25, 26, 27], vec![]),
+                "pp-focus" => (vec![22, 23, 24, 26, 27], vec![23]),
+                _ => { let k = rng.range(1, 7) as usize; let mut a = all.clone(); rng.shuffle(&mut a); a.truncate(k); (a, vec![]) }
+            };
+            add_json(&mut rng, c, &active, &dense, vocab_n);
+        }
+    }
     // big corpora: checked on the Rust side only (union windows of 4096 docs, terms in > 4096 docs)
     let mut big: Vec<Corpus> = vec![];
     let mut witness_only: Vec<(Corpus, Vec<Q>)> = vec![];
@@ -672,11 +842,26 @@ fn main() {
         witness_only.push((Corpus { name: "witness-F134".into(), docs, chunks: vec![n], merge_first_two: false }, vec![q1, q2]));
     }
 
+    // sparse corpora: matches thousands of doc ids apart (beyond the 4096-doc window of the buffered union)
+    {
+        let n = if thorough { 60_000 } else { 32_000 };
+        let specs: Vec<(&str, Vec<usize>, u64)> = if thorough { vec![("sparse-1seg", vec![n], 0), ("sparse-2seg-deletes", vec![n / 2 + 3000, n / 2 - 3000], 3), ("sparse-1seg-b", vec![n], 0)] }
+                                                  else { vec![("sparse-1seg", vec![n], 0), ("sparse-2seg-deletes", vec![n / 2 + 3000, n / 2 - 3000], 3)] };
+        for (name, chunks, del) in specs {
+            let mut c = gen_sparse_corpus(&mut rng, name, n, chunks, del);
+            add_json(&mut rng, &mut c, &[21, 24], &[], vocab_n);
+            let nq = if thorough { 600 } else { 150 };
+            let qs: Vec<Q> = (0..nq).map(|k| if k % 3 != 0 { sparse_directed(&mut rng) } else { let d = *rng.pick(&[2usize, 2, 3]); sparse_tree(&mut rng, d) }).collect();
+            witness_only.push((c, qs));
+        }
+    }
+
     // ---------------- run
     struct Run { ci: usize, q: Q, obs: Obs, expect: Vec<u64>, auto_base: usize }
     let mut headers = String::new();
     let mut runs: Vec<Run> = vec![];
     let mut bulk: Vec<(bool, serde_json::Value)> = vec![];
+    let mut col_cases: Vec<(String, serde_json::Value)> = vec![];
     let mut stats: BTreeMap<String, u64> = BTreeMap::new();
     let n_queries = if thorough { 260 } else { 62 };
 
@@ -715,7 +900,9 @@ fn main() {
         qs.push(Q::Bool(2, vec![(Occur::Should, Q::All), (Occur::Should, Q::Term { f: 0, t: 3, freqs: true }), (Occur::Should, Q::Term { f: 0, t: 1, freqs: true })]));
         let n_pp = if c.name == "pp-focus" { if thorough { 120 } else { 40 } } else if c.docs.len() >= 9 { if thorough { 30 } else { 8 } } else { 2 };
         for _ in 0..n_pp { qs.push(qg.pp_tree()); }
-        let nq_here = if c.docs.len() > 150 && !thorough { 36 + n_pp } else if c.docs.len() < 2 && !thorough { 24 } else { n_queries + n_pp };   // large segments cost more in Coq
+        let n_ex = if c.docs.is_empty() { 1 } else if thorough { 16 } else { 6 };
+        for _ in 0..n_ex { qs.push(qg.exists_tree()); }
+        let nq_here = if c.docs.len() > 150 && !thorough { 36 + n_pp + n_ex } else if c.docs.len() < 2 && !thorough { 24 } else { n_queries + n_pp + n_ex };   // large segments cost more in Coq
         while qs.len() < nq_here {
             let depth = *qg.rng.pick(&[0usize, 1, 2, 2, 3, 3, 4]);
             qs.push(qg.tree(depth));
@@ -730,6 +917,45 @@ fn main() {
             cf::list(&built.layout, |seg| cf::list(seg, |(u, a)| format!("({}, {})", u, a)))));
         headers.push_str(&format!("Definition c{ci}_acc : N -> N -> bool := mk_acc {}.\n", cf::list(&acc, |a| cf::ns(a))));
 
+        // exists over the JSON field: the columns each query expands to, read back per segment, against
+        // Exists.exists_scorer and against the documents of ExistsWeight::scorer (deleted documents included)
+        for (ord, sr) in built.searcher.segment_readers().iter().enumerate() {
+            let mut names: Vec<(String, bool, Vec<u64>)> = vec![("js".to_string(), true, JSON_PATHS.iter().map(|p| p.0).collect())];
+            let (jf, path, _) = JSON_PATHS[(ci + ord) % JSON_PATHS.len()];
+            names.push((format!("js.{path}"), false, vec![jf]));
+            names.push(("js.m".to_string(), false, vec![27]));
+            for (name, subpaths, fs) in names {
+                let r = guarded(|| -> tantivy::Result<(Vec<(u8, Vec<u32>)>, Vec<u32>)> {
+                    let ff = sr.fast_fields();
+                    let mut handles = ff.dynamic_column_handles(&name)?;
+                    if subpaths { handles.append(&mut ff.dynamic_subpath_column_handles(&name)?); }
+                    let mut cols = vec![];
+                    for h in handles {
+                        let col = h.open()?;
+                        let idx = col.column_index();
+                        let kind = match idx { tantivy::columnar::ColumnIndex::Empty { .. } => 0u8, tantivy::columnar::ColumnIndex::Full => 1, tantivy::columnar::ColumnIndex::Optional(_) => 2, tantivy::columnar::ColumnIndex::Multivalued(_) => 3 };
+                        cols.push((kind, (0..sr.max_doc()).filter(|d| idx.has_value(*d)).collect::<Vec<u32>>()));
+                    }
+                    let w = ExistsQuery::new(name.clone(), subpaths).weight(EnableScoring::disabled_from_schema(&built.index.schema()))?;
+                    let mut sc = w.scorer(sr, 1.0)?;
+                    let mut docs = vec![];
+                    let mut d = sc.doc();
+                    while d != tantivy::TERMINATED { docs.push(d); d = sc.advance(); }
+                    Ok((cols, docs))
+                });
+                match flat(r) {
+                    Ok((cols, docs)) => {
+                        *stats.entry(format!("exists_columns_{}", cols.iter().filter(|c| c.0 != 0).count().min(6))).or_default() += 1;
+                        if cols.iter().any(|c| c.0 == 3) { *stats.entry("exists_with_multivalued_column".into()).or_default() += 1; }
+                        col_cases.push((format!("check_exists_cols (nth {} c{ci}_segs []) {} {} {}", cf::nat(ord), cf::ns(&fs),
+                                                cf::list(&cols, |(k, ds)| format!("({}, {})", k, cf::ns(ds))), cf::ns(&docs)),
+                                        json!({"what": "exists columns", "corpus": c.name, "segment": ord, "query": name, "subpaths": subpaths, "n_columns": cols.len(), "kinds": cols.iter().map(|c| c.0).collect::<Vec<_>>()})));
+                    }
+                    Err(e) => bulk.push((false, json!({"what": "exists columns could not be read / scorer failed", "corpus": c.name, "query": name, "error": e}))),
+                }
+            }
+        }
+
         let total = c.docs.len();
         for q in qs {
             let tq = to_query(&q, &built.fields, &vocab);
@@ -743,6 +969,9 @@ fn main() {
     // big corpora: Rust-side spec only
     let big_all: Vec<(&Corpus, Option<&Vec<Q>>)> = big.iter().map(|c| (c, None)).chain(witness_only.iter().map(|(c, qs)| (c, Some(qs)))).collect();
     for (c, fixed) in big_all {
+        if let Ok(spec) = std::env::var("C03_DUMP") {   // debugging aid: C03_DUMP=<corpus> prints the documents holding a rare token
+            if spec == c.name { for d in &c.docs { if d.toks(0).iter().any(|t| *t != 0 && *t != 9) { eprintln!("{} {:?} alive={}", d.uid, d.toks(0), d.alive); } } }
+        }
         let built = build_index(c, &vocab);
         let mut qg = QGen { rng: &mut rng, vocab: &vocab, autos: vec![], docs: &c.docs[..200.min(c.docs.len())] };
         let nq = if thorough { 150 } else { 30 };
@@ -764,8 +993,20 @@ fn main() {
             let ok = obs.count == Ok(expect.len() as u64) && obs.qcount == Ok(expect.len() as u64) && obs.ids_ns.as_ref() == Ok(&expect)
                 && obs.ids_ns_scw.as_ref() == Ok(&expect) && obs.ids_top.as_ref() == Ok(&expect) && obs.ids_multi == Ok((expect.clone(), expect.clone()))
                 && obs.ids_filter == Ok(expect.iter().copied().filter(|u| u % 3 != 0).collect());
-            bulk.push((ok, json!({"what": "big corpus: every collector returns the ids of the naive evaluator", "corpus": c.name, "query": q.coq(),
-                                  "expected_n": expect.len(), "count": format!("{:?}", obs.count), "docset_n": obs.ids_ns.as_ref().map(|v| v.len()).ok()})));
+            // known class F33 (see known_findings.json): only EXTRA documents, every collector agrees on them, a segment
+            // larger than the union's 4096-doc window, and the query has a seek_danger-driven union with a dangling-capable child
+            let f33 = !ok && q.has_f33() && c.chunks.iter().any(|s| *s > 4096) && match &obs.ids_ns {
+                Ok(got) => expect.iter().all(|u| got.contains(u)) && got.len() > expect.len()
+                    && obs.count == Ok(got.len() as u64) && obs.qcount == Ok(got.len() as u64) && obs.ids_ns_scw.as_ref() == Ok(got) && obs.ids_top.as_ref() == Ok(got) && obs.ids_multi == Ok((got.clone(), got.clone())),
+                Err(_) => false };
+            if f33 { *stats.entry("known_F33".into()).or_default() += 1; }
+            bulk.push((ok, json!({"what": "big corpus: every collector returns the ids of the naive evaluator", "corpus": c.name, "query": q.coq(), "known": if f33 { json!("F33") } else { serde_json::Value::Null },
+                                  "expected_n": expect.len(), "count": format!("{:?}", obs.count), "docset_n": obs.ids_ns.as_ref().map(|v| v.len()).ok(),
+                                  "diff": if ok { serde_json::Value::Null } else {
+                                      let got: Vec<u64> = obs.ids_ns.clone().unwrap_or_default();
+                                      let show = |ids: Vec<u64>| ids.into_iter().take(6).map(|u| json!({"uid": u, "t0": c.docs[u as usize].toks(0).iter().map(|t| vocab[*t].clone()).collect::<Vec<_>>(), "alive": c.docs[u as usize].alive})).collect::<Vec<_>>();
+                                      json!({"extra": show(got.iter().copied().filter(|u| !expect.contains(u)).collect()), "missing": show(expect.iter().copied().filter(|u| !got.contains(u)).collect()),
+                                             "vocab": vocab, "got_docset": got.iter().take(40).collect::<Vec<_>>(), "top": format!("{:?}", obs.ids_top).chars().take(300).collect::<String>()}) }})));
             *stats.entry("big_corpus_queries".into()).or_default() += 1;
         }
     }
@@ -775,6 +1016,7 @@ fn main() {
     let mut out = CaseOut::new(&args.out, &header, if thorough { 120 } else { 96 });   // every shard re-parses the corpora: few, larger shards
     for (k, v) in stats { out.count(&k, v); }
     for (ok, d) in bulk { out.spec_checked(ok, d); }
+    for (term, d) in col_cases { out.coq_case("tie", term, d, true); }
 
     // ---------------- order-preserving encodings (i64 / f64 / bool / date -> u64)
     {
